@@ -408,9 +408,9 @@ func checkC05(c C05Case) (vs []*Violation) {
 			vs = append(vs, viol("", "Produces=%v, two Accept lines %q and %q: status %d Content-Type %q is neither the answer for the first line alone (admitted=%v type=%q) nor for the joined list (%q)", c.Produces, l1, l2, w.Code, got, admittedA, wantA, want))
 		}
 	}
-	if c.BadQ != "" && len(vs) == 0 && len(c.Accept) >= 1 {
-		// (with at least one well-formed range that decides the answer there is no fallback lookup
-		// over the whole header, whose outcome for malformed headers is not deterministic)
+	if c.BadQ != "" && len(vs) == 0 {
+		// (until D18 was repaired this was restricted to headers with at least one well-formed
+		// range: the fallback lookup over the whole header was not deterministic)
 		// metamorphic: trace logging on/off must not change the representation, whatever the header
 		parts := []string{}
 		for i, r := range c.Accept {
@@ -439,6 +439,26 @@ func checkC05(c C05Case) (vs []*Violation) {
 				sig = "D17"
 			}
 			vs = append(vs, viol(sig, "Produces=%v Accept=%q: answered {%s panic=%q} with trace logging off (TraceLogger(nil)=%v) and {%s panic=%q} with trace logging on", c.Produces, h, a, off.Panic, c.TraceOffNil, b, on.Panic))
+		}
+	}
+	if c.BadQ != "" && len(vs) == 0 && len(c.Produces) >= 2 {
+		// every range carries an unparsable q-value: which representation is "best" is not
+		// specified then, but it is still one request, so it gets one representation (D18)
+		suffix := c.BadQ[strings.Index(c.BadQ, ";"):]
+		var parts []string
+		for _, p := range c.Produces {
+			parts = append(parts, p+suffix)
+		}
+		h := strings.Join(parts, ",")
+		req := model.ReqSpec{Method: "GET", Path: "/x", Headers: []model.H{{K: "Accept", V: h}}}
+		all := map[string]bool{}
+		for rep := 0; rep < 10; rep++ {
+			o := harness.Do(ct, rec, req, c.Via, "allbad."+strconv.Itoa(rep))
+			all[strconv.Itoa(o.Status)+" "+strings.Join(o.Header["Content-Type"], "|")+" panic="+o.Panic] = true
+		}
+		labels = append(labels, "every_range_with_malformed_q")
+		if len(all) > 1 {
+			vs = append(vs, viol("", "Produces=%v Accept=%q: the same request got different answers: %v", c.Produces, h, all))
 		}
 	}
 	if len(seen) > 1 && len(vs) == 0 {
